@@ -16,7 +16,7 @@ import numpy as np
 
 from ..core import Machine, rs
 from .. import gen, walker
-from ..seams.fs import FsSeam
+from ..seams.fs import FsSeam, InjectedOSError
 from ..seams.ffmpeg_fake import FakeFFmpeg
 
 import menpo.io as mio
@@ -82,7 +82,7 @@ class IOWorld(Machine):
                        "unicode_label", "spelling_0", "spelling_1", "spelling_2", "spelling_3", "spelling_4", "spelling_5", "spelling_6", "spelling_7",
                        "clean_path_read_back_later", "path_reduce_restored", "pts_roundtrip", "empty_edge_set",
                        "pts_large_coordinates", "masked_image_export", "explicit_extension_kwarg", "empty_preexisting_file", "exact_zero_coordinates",
-                       "upper_case_extension", "pickled_transform_was_applied_before")
+                       "upper_case_extension", "pickled_transform_was_applied_before", "label_with_lone_surrogate")
 
     @classmethod
     def swarm(cls, rng, tier):
@@ -104,7 +104,7 @@ class IOWorld(Machine):
               "ext": rng.randrange(7), "proto": rng.choice([2, 2, 3, 4, 5])}
         op["again"] = int(cfg["kind"] == "faulty" and rng.random() < 0.3)   # retry the previous export's target
         if cfg["kind"] == "faulty" and k.startswith(("export", "import", "roundtrip")) and rng.random() < 0.6:
-            op.update(fk=rng.randrange(6), fn=rng.choice([0, 0, 1, 2, 3, 5, 8, 13, 21]), fe=rng.randrange(4),
+            op.update(fk=rng.randrange(8), fn=rng.choice([0, 0, 1, 2, 3, 5, 8, 13, 21]), fe=rng.randrange(4),
                       keep=rng.choice([0, 1, 7, 64]))
         else:
             op.update(fk=-1, fn=0, fe=0, keep=0)
@@ -262,6 +262,10 @@ class IOWorld(Machine):
             o = gen.make_shape(sk, seed, max(n, 3), d)
             if k == "lpug":
                 names = ["øye", "a", "眉毛", "zeta", "B", "chin"]
+                if seed % 4 == 0:
+                    # a label that came from a file name decoded with surrogateescape: a str like any other
+                    names = ["left\udc80eye", "a", "\U0001F600", "zeta", "B\u2028", "chin"]
+                    self.ctx.probe("label_with_lone_surrogate")
                 pts = o.points
                 m = pts.shape[0]
                 lab = OrderedDict()
@@ -283,7 +287,7 @@ class IOWorld(Machine):
         if k == "manager":
             mgr = LandmarkManager()
             kinds = [int(v) for v in g.permutation([0, 3, 8, 4, 7, 8])]
-            for j, nm in enumerate(["zz", "left eye", "Ünï", "a"][: int(g.randint(2, 5))]):
+            for j, nm in enumerate((["zz", "left eye", "Ünï", "a"] if seed % 5 else ["zz", "gr\udcffp", "Ünï", "a"])[: int(g.randint(2, 5))]):
                 mgr[nm] = self.lm_object(kinds[j], seed + j + 1, force2d=True)
             self.ctx.probe("manager_ge2_groups")
             return mgr
@@ -375,7 +379,7 @@ class IOWorld(Machine):
     def plan(self, op):
         if op.get("fk", -1) < 0 or self.cfg["kind"] != "faulty":
             return None
-        kind = ["open", "write", "close", "flush", "read", "write"][op["fk"] % 6]
+        kind = ["open", "write", "close", "flush", "read", "write", "stat", "short_write"][op["fk"] % 8]
         return [{"kind": kind, "nth": op["fn"], "errno": ERRNOS[op["fe"] % 4], "keep": op["keep"]}]
 
     def guarded(self, op, fn):
@@ -394,6 +398,10 @@ class IOWorld(Machine):
             if self.fs.sweep():
                 self.ctx.probe("leaked_write_handle_swept")
         fired = plan.fired if plan is not None else []
+        if any(f["kind"] == "short_write" for f in fired):
+            # not an error: a raw file took fewer bytes than offered; the operation must still write everything (or raise)
+            self.ctx.fault("raw_write_accepted_fewer_bytes")
+            fired = [f for f in fired if f["kind"] != "short_write"]
         for f in fired:
             self.ctx.fault("%s_%s" % (f["kind"], errno.errorcode[f["errno"]]))
             if f["kind"] == "write":
@@ -459,12 +467,17 @@ class IOWorld(Machine):
         label = {"ljson": "ljson", "pts": "pts", "pkl": "pickle", "pklgz": "pickle_gz", "img": "image", "video": "video"}[kind]
         if existed and not op["ow"]:
             ok = isinstance(exc, OverwriteError)
+            if not ok and isinstance(exc, InjectedOSError) and any(f["kind"] == "stat" for f in fired):
+                # the existence check itself failed (the one narrow relaxation): the export may end with that
+                # error instead - it must not go ahead, and the bytes on disk are judged as always
+                ctx.probe("existence_check_failed_export_refused_with_that_error")
+                ok = True
             ctx.require(ok, "overwrite_protection", "no_OverwriteError_" + label,
                         lambda: "export to existing %r with overwrite=False: %r" % (rel, exc))
             now = self.raw(rel) if os.path.exists(os.path.join(self.root, rel)) else None
             ctx.require(now == before[rel], "overwrite_protection", "refused_export_changed_file_" + label,
                         lambda: "refused export changed the bytes of %r" % rel)
-            if ok:
+            if ok and isinstance(exc, OverwriteError):
                 ctx.probe("refused_" + label)
                 if state[0] == "foreign":
                     ctx.probe("refused_foreign")
